@@ -1885,6 +1885,44 @@ impl Campaign for QueueStatsIdentity {
 }
 
 // ---------------------------------------------------------------------------
+// Receivers that the harness closes while a sink keeps sending to them are bound to ports
+// *outside* the kernel's ephemeral range (32768..60999 here): a closed ephemeral port can be
+// handed to any other bind(0) on the machine (another check running at the same time), which
+// would then receive this sink's datagrams - and raise a false alarm there or here. Each
+// process claims a block of ports by holding the block's first port for its lifetime.
+
+static PRIVATE_CTR: AtomicUsize = AtomicUsize::new(0);
+static PRIVATE_BLOCK: Mutex<Option<(usize, UdpSocket)>> = Mutex::new(None);
+const PRIVATE_BASE: usize = 10_000;
+const PRIVATE_BLOCK_LEN: usize = 300;
+const PRIVATE_BLOCKS: usize = 70;
+
+fn bind_private_port() -> Option<UdpSocket> {
+    let block = {
+        let mut g = PRIVATE_BLOCK.lock().unwrap_or_else(|p| p.into_inner());
+        if g.is_none() {
+            let start = std::process::id() as usize % PRIVATE_BLOCKS;
+            for i in 0..PRIVATE_BLOCKS {
+                let b = (start + i) % PRIVATE_BLOCKS;
+                if let Ok(s) = UdpSocket::bind(("127.0.0.1", (PRIVATE_BASE + b * PRIVATE_BLOCK_LEN) as u16)) {
+                    *g = Some((b, s));
+                    break;
+                }
+            }
+        }
+        g.as_ref().map(|(b, _)| *b)?
+    };
+    for _ in 0..PRIVATE_BLOCK_LEN {
+        let n = PRIVATE_CTR.fetch_add(1, Ordering::Relaxed);
+        let port = PRIVATE_BASE + block * PRIVATE_BLOCK_LEN + 1 + n % (PRIVATE_BLOCK_LEN - 1);
+        if let Ok(s) = UdpSocket::bind(("127.0.0.1", port as u16)) {
+            return Some(s);
+        }
+    }
+    None
+}
+
+// ---------------------------------------------------------------------------
 // C19 (and C13): a buffered UDP sink over a *connected* socket whose peer port was closed
 // for a while (ICMP port unreachable leaves a pending error on the socket). Whatever the
 // socket reports and whenever, lines that fit into the empty buffer together must not be
@@ -1929,9 +1967,9 @@ impl Campaign for ConnectedUdpGreedy {
         if k < 2 || (k + 2) * l <= cap {
             return Outcome::ok();
         }
-        let rx = match UdpSocket::bind("127.0.0.1:0") {
-            Ok(r) => r,
-            Err(e) => return skip(&e.to_string()),
+        let rx = match bind_private_port() {
+            Some(r) => r,
+            None => return skip("no private port"),
         };
         let addr = rx.local_addr().unwrap();
         drop(rx); // nobody listens: the first datagram bounces
@@ -2122,19 +2160,27 @@ impl Campaign for UdpRestart {
         };
         // a port taken by another socket of this machine while ours was closed: the case is not run
         let skip = || Outcome::ok();
-        let mk = || -> Option<(DynSink, UdpSocket, UdpSocket)> {
-            let rx = Rx::new(Transport::Udp).ok()?;
+        let mk = |private: bool| -> Option<(DynSink, UdpSocket, UdpSocket)> {
+            let mut rx = Rx::new(Transport::Udp).ok()?;
+            if private {
+                // this receiver will be closed while the sink keeps sending to its port
+                if let Rx::Udp { target, .. } = &mut rx {
+                    let t = bind_private_port()?;
+                    t.set_nonblocking(true).ok()?;
+                    *target = t;
+                }
+            }
             let sink = build_sink(&sc, &rx).ok()?;
             match rx {
                 Rx::Udp { target, decoy } => Some((sink, target, decoy)),
                 _ => None,
             }
         };
-        let (test, t_rx, t_decoy) = match mk() {
+        let (test, t_rx, t_decoy) = match mk(true) {
             Some(x) => x,
             None => return skip(),
         };
-        let (reference, r_rx, r_decoy) = match mk() {
+        let (reference, r_rx, r_decoy) = match mk(false) {
             Some(x) => x,
             None => return skip(),
         };
@@ -2356,9 +2402,9 @@ impl Campaign for ConnectedUdpOnce {
             s.push_str(":1|c");
             s
         };
-        let rx = match UdpSocket::bind("127.0.0.1:0") {
-            Ok(r) => r,
-            Err(_) => return skip(),
+        let rx = match bind_private_port() {
+            Some(r) => r,
+            None => return skip(),
         };
         let addr = match rx.local_addr() {
             Ok(a) => a,
